@@ -28,6 +28,7 @@ type S struct {
 	Init  string  // "", "decl", "yield", "eff"
 	Post  string  // for: "", "inc", "yield", "eff"
 	N     int     // small parameter (loop bound, ...)
+	Code  string  // raw statement text (kind "raw": injected unsupported constructs, C12)
 }
 
 func (s *S) clone() *S {
@@ -88,7 +89,7 @@ func Size(xs []*S) int {
 func shape(xs []*S, b *strings.Builder) {
 	b.WriteByte('[')
 	for _, s := range xs {
-		fmt.Fprintf(b, "%s/%s/%s/%s/%v/%v/%d", s.K, s.Form, s.Init, s.Post, s.Chain, s.Def, s.N)
+		fmt.Fprintf(b, "%s/%s/%s/%s/%v/%v/%d/%s", s.K, s.Form, s.Init, s.Post, s.Chain, s.Def, s.N, s.Code)
 		shape(s.A, b)
 		if s.B != nil {
 			b.WriteString("else")
@@ -114,7 +115,7 @@ func ShapeHash(xs []*S, salt string) string {
 
 func containsYield(xs []*S) bool {
 	for _, s := range xs {
-		if s.K == "yield" || s.K == "yfrom" || s.Init == "yield" || s.Post == "yield" {
+		if s.K == "yield" || s.K == "yfrom" || s.Init == "yield" || s.Post == "yield" || (s.K == "raw" && strings.Contains(s.Code, "YIELD(")) {
 			return true
 		}
 		if containsYield(s.A) || containsYield(s.B) {
@@ -231,6 +232,8 @@ func features(xs []*S, c fctx, f map[string]bool, top bool) {
 			if c.breakTo != nil && c.breakTo.K == "switch" {
 				f["continue-inside-switch"] = true
 			}
+		case "raw":
+			f["unsupported:"+s.Form] = true
 		case "panic":
 			f["panic:"+s.Form] = true
 			if c.loop != nil {
@@ -271,6 +274,10 @@ func yieldExpr(s *S) string {
 		return fmt.Sprint(s.ID * 10)
 	case "var":
 		return "a"
+	case "call1": // a call with exactly ONE literal argument
+		return fmt.Sprintf("tr.W(%d)", s.ID)
+	case "glob": // a package-level variable declared in ANOTHER file of the package (reg.go)
+		return "SharedG"
 	case "expr":
 		return fmt.Sprintf("a*1000 + %d", s.ID)
 	default: // call
@@ -310,6 +317,8 @@ func (r *rctx) stmt(s *S) {
 		switch s.Form {
 		case "mut":
 			r.line("a, b = b, a+b")
+		case "globmut":
+			r.line("SharedG += %d", 3+s.ID%5)
 		case "set":
 			r.line("a = tr.V(%d, a+1)", s.ID)
 		default:
@@ -327,6 +336,10 @@ func (r *rctx) stmt(s *S) {
 		r.switchStmt(s)
 	case "for":
 		r.forStmt(s)
+	case "raw":
+		for _, l := range strings.Split(strings.Trim(strings.ReplaceAll(s.Code, "#", fmt.Sprint(s.ID)), "\n"), "\n") {
+			r.line("%s", l)
+		}
 	case "panic":
 		guard := s.N != 0
 		if guard {
@@ -369,6 +382,8 @@ func (r *rctx) ifStmt(s *S, head string) {
 		cond = fmt.Sprintf("c%d := tr.B(%d); c%d", s.ID, s.ID*10, s.ID)
 	case "eff":
 		cond = fmt.Sprintf("tr.E(%d); tr.B(%d)", s.ID*10+1, s.ID*10)
+	case "yield": // unsupported (C12)
+		cond = fmt.Sprintf("%s; tr.B(%d)", yieldStmt(s.ID*10+1, "call"), s.ID*10)
 	}
 	r.line("%s%s {", head, cond)
 	r.block(s.A)
@@ -478,6 +493,8 @@ func (r *rctx) forStmt(s *S) {
 		} else {
 			r.line("for %s; tr.B(%d); %s {", init, s.ID*10, post)
 		}
+	case "nip": // no init, tape-steered condition, post mutates state that yields read (the same For value may be re-run)
+		r.line("for ; tr.B(%d); a++ {", s.ID*10)
 	case "3cn": // three clauses without a condition: left by break/return in the body
 		r.line("for %s := 0; ; %s++ {", v, v)
 		r.ind++
@@ -518,6 +535,12 @@ func Render(xs []*S, endReturn bool) string {
 	r := &rctx{b: &b, ind: 1}
 	r.line("a, b := 1, 1")
 	r.line("tr.U(a, b)")
+	var body strings.Builder
+	rb := &rctx{b: &body, ind: 1}
+	rb.stmts(xs)
+	if strings.Contains(body.String(), "SharedG") {
+		r.line("SharedG = 0")
+	}
 	r.stmts(xs)
 	if endReturn {
 		r.line("RETNIL")
@@ -604,7 +627,7 @@ func logsFirst(xs []*S) bool {
 	s := xs[0]
 	switch s.K {
 	case "yield":
-		return s.Form == "call"
+		return s.Form == "call" || s.Form == "call1"
 	case "eff":
 		return s.Form == "e" || s.Form == "set" || s.Form == "call"
 	case "if":
@@ -614,7 +637,7 @@ func logsFirst(xs []*S) bool {
 	case "block":
 		return logsFirst(s.A)
 	case "for":
-		return s.Form == "cond" || s.Form == "3cb"
+		return s.Form == "cond" || s.Form == "3cb" || s.Form == "nip"
 	}
 	return false
 }
@@ -685,6 +708,7 @@ func enumStmt(n int, emit func(*S)) {
 		emit(&S{K: "for", Form: "cond", A: a})
 		emit(&S{K: "for", Form: "inf", A: a})
 		emit(&S{K: "for", Form: "3cn", A: a, N: 1})
+		emit(&S{K: "for", Form: "nip", A: a})
 		emit(&S{K: "for", Form: "3c", Post: "yield", A: a, N: 2})
 		emit(&S{K: "switch", Form: "tag", Cases: [][]*S{a}})
 		emit(&S{K: "switch", Form: "tagless", Cases: [][]*S{a}, Def: true})
@@ -722,7 +746,31 @@ func Exhaustive(maxNodes, cap int, quarantine map[string]bool, seed int64) (prog
 		all = all[:cap]
 		complete = false
 	}
+	forms := []string{"call", "call1", "var", "lit", "glob", "expr"}
 	for i, xs := range all {
+		// cycle the yield / effect forms deterministically over the enumerated shapes
+		k := i
+		var walk func(ys []*S)
+		walk = func(ys []*S) {
+			for _, y := range ys {
+				if y.K == "yield" {
+					y.Form = forms[k%len(forms)]
+					k++
+				}
+				if y.K == "eff" && k%3 == 0 {
+					y.Form = []string{"mut", "globmut", "set"}[(k/3)%3]
+				}
+				walk(y.A)
+				walk(y.B)
+				for _, c := range y.Cases {
+					walk(c)
+				}
+			}
+		}
+		walk(xs)
+		if !wellFormed(xs, wctx{}) {
+			continue
+		}
 		p := Program(fmt.Sprintf("x:%d", i), xs, render.Style(i%int(render.NStyles)), "x")
 		if quarantined(p, quarantine) {
 			continue
@@ -753,9 +801,9 @@ type Profile struct {
 	PanicPct  int // percentage of statements that are (mostly tape-guarded) panics
 }
 
-var Ctl = Profile{Name: "ctl", MaxDepth: 4, MaxStmts: 5, YieldForm: []string{"call", "call", "lit", "var", "expr"}, EffForm: []string{"e", "e", "mut", "set"}}
+var Ctl = Profile{Name: "ctl", MaxDepth: 4, MaxStmts: 5, YieldForm: []string{"call", "call", "lit", "var", "expr", "call1", "glob"}, EffForm: []string{"e", "e", "mut", "set", "globmut"}}
 var Panic = Profile{Name: "panic", MaxDepth: 3, MaxStmts: 5, YieldForm: []string{"call", "var", "lit"}, EffForm: []string{"e", "set", "mut"}, PanicPct: 12}
-var Fx = Profile{Name: "fx", MaxDepth: 3, MaxStmts: 6, YieldForm: []string{"var", "expr", "call", "var"}, EffForm: []string{"mut", "set", "e", "set"}}
+var Fx = Profile{Name: "fx", MaxDepth: 3, MaxStmts: 6, YieldForm: []string{"var", "expr", "call", "var", "call1", "glob", "lit"}, EffForm: []string{"mut", "set", "e", "set", "globmut"}}
 
 type rgen struct {
 	rng  *rand.Rand
@@ -843,7 +891,7 @@ func (g *rgen) stmt(depth int, c wctx) *S {
 		}
 		return s
 	case r < 94:
-		s := &S{K: "for", Form: g.pick([]string{"3c", "3c", "3cb", "cond", "inf", "3cn"}), N: 1 + g.rng.Intn(3)}
+		s := &S{K: "for", Form: g.pick([]string{"3c", "3c", "3cb", "cond", "inf", "3cn", "nip"}), N: 1 + g.rng.Intn(3)}
 		if s.Form == "3c" {
 			s.Post = g.pick([]string{"inc", "inc", "inc", "yield", "eff"})
 			if g.rng.Intn(6) == 0 {
